@@ -44,16 +44,35 @@ __CPROVER_requires(1)
 __CPROVER_ensures(1)
 __CPROVER_assigns()
 ;
-/* every index into the list is in bounds (the stub vector asserts it), the remove-by-swap only happens on a
- * non-empty list and shrinks it by exactly one; element dereferences are outside this job (DESIGN 2.9) */
+/* the list's constraints: element i of the list is object i of this pool (instantiated at each l[i] by the stub vector's element hook) */
+extern void *verif_g_l; extern void *verif_pool; extern const unsigned long verif_sizeof_constraint;   /* = sizeof(vpsc::Constraint) in CBMC's C++ layout, defined in the C++ translation unit */
+void *verif_K; size_t verif_K_idx;     /* ghost: an arbitrary list index and the constraint there */
+#define LV(l) ((struct vec *)(l))
+#define POOL_AT(i) ((void *)((char *)verif_pool + (i) * verif_sizeof_constraint))
+/* every index into the list is in bounds (the stub vector asserts it) and every element dereference is of a live constraint (pointer checks on);
+ * an empty list gives no constraint; a returned constraint is one of the list's; the list either stays as it is or loses EXACTLY the returned
+ * constraint (the last element takes its slot, every other slot keeps its constraint): nothing else is ever dropped from the work list */
 void *w_mostViolated(void *s, void *l)
 __CPROVER_requires(__CPROVER_is_fresh(l, sizeof(struct vec)))
-__CPROVER_requires(((struct vec *)l)->n <= 1000000 && ((struct vec *)l)->cap >= ((struct vec *)l)->n && ((struct vec *)l)->cap <= 1000000)
-__CPROVER_requires(__CPROVER_is_fresh(((struct vec *)l)->d, ((struct vec *)l)->cap * sizeof(void *)))
-__CPROVER_ensures(((struct vec *)l)->n == __CPROVER_old(((struct vec *)l)->n) ||
-                  (__CPROVER_old(((struct vec *)l)->n) >= 1 && ((struct vec *)l)->n == __CPROVER_old(((struct vec *)l)->n) - 1))
-__CPROVER_ensures(__CPROVER_old(((struct vec *)l)->n) == 0 ==> __CPROVER_return_value == (void *)0)
-__CPROVER_assigns(((struct vec *)l)->n, __CPROVER_object_whole(((struct vec *)l)->d))
+__CPROVER_requires(LV(l)->n <= 1000000 && LV(l)->cap >= LV(l)->n && LV(l)->cap <= 1000000)
+__CPROVER_requires(__CPROVER_is_fresh(LV(l)->d, LV(l)->cap * sizeof(void *)))
+__CPROVER_requires(__CPROVER_is_fresh(verif_pool, (LV(l)->n + 1) * verif_sizeof_constraint))
+__CPROVER_requires(verif_K_idx < LV(l)->n ==> (verif_K == POOL_AT(verif_K_idx) && ((void **)LV(l)->d)[verif_K_idx] == verif_K))
+__CPROVER_requires(verif_K_idx < LV(l)->n || LV(l)->n == 0)
+__CPROVER_ensures(LV(l)->n == __CPROVER_old(LV(l)->n) ||
+                  (__CPROVER_old(LV(l)->n) >= 1 && LV(l)->n == __CPROVER_old(LV(l)->n) - 1))
+__CPROVER_ensures(__CPROVER_old(LV(l)->n) == 0 ==> __CPROVER_return_value == (void *)0)
+/* (a non-empty list may still give none: every slack may be DBL_MAX, the value slack() has for a constraint already flagged unsatisfiable) */
+__CPROVER_ensures(__CPROVER_return_value == (void *)0 || __CPROVER_same_object(__CPROVER_return_value, verif_pool))
+/* without a returned constraint the list keeps its length */
+__CPROVER_ensures(__CPROVER_return_value == (void *)0 ==> LV(l)->n == __CPROVER_old(LV(l)->n))
+/* list unchanged in length: the ghost slot keeps its constraint */
+__CPROVER_ensures((LV(l)->n == __CPROVER_old(LV(l)->n) && verif_K_idx < LV(l)->n) ==> ((void **)LV(l)->d)[verif_K_idx] == verif_K)
+/* list shrunk: the ghost slot keeps its constraint unless it held the returned one, in which case it now holds the former last element */
+__CPROVER_ensures((LV(l)->n < __CPROVER_old(LV(l)->n) && verif_K_idx < LV(l)->n) ==>
+                  (verif_K != __CPROVER_return_value ? ((void **)LV(l)->d)[verif_K_idx] == verif_K
+                                                     : ((void **)LV(l)->d)[verif_K_idx] == POOL_AT(LV(l)->n)))
+__CPROVER_assigns(LV(l)->n, __CPROVER_object_whole(LV(l)->d), verif_g_l)
 ;
 void h_mostViolated(void) { void *s, *l; w_mostViolated(s, l); VERIF_CANARY; }
 #endif
@@ -132,6 +151,21 @@ void h_release(void)
   for (unsigned k = 0; k < 4; ++k) if (k < n) { if ((pattern >> k) & 1u) hasB = 1; else hasA = 1; }
   __CPROVER_assert(relA == (hasA ? 1 : 0) && relB == (hasB ? 1 : 0) && relOther == 0, "SPEC every constraint in the vector is released exactly once, duplicates (adjacent or not) included");
   __CPROVER_assert(left == 0, "SPEC the layout's constraint vector is emptied");
+  VERIF_CANARY;
+}
+#endif
+
+/* ------------------------------------------------------------------------------------------------
+ * PairingHeap::combineSiblings: every index into the scratch array (the sibling slots AND the terminating null slot) is inside the array, whatever
+ * the number of siblings; the stub vector asserts each index.  BOUNDED: one job per number of siblings (COMBINE_N). */
+#if defined(JOB_combine)
+void *w_combine(unsigned n);
+void w_link(void *first, void *second) { }
+void h_combine(void)
+{
+  unsigned n = COMBINE_N;
+  void *r = w_combine(n);
+  __CPROVER_assert(r != (void *)0, "SPEC combineSiblings returns a tree");
   VERIF_CANARY;
 }
 #endif
